@@ -15,7 +15,10 @@ RULE = ("four streams, all from one PRNG: (1) kernel inputs for mutational_area 
         "x breaks x quantile_width x max_shape for piecewise_scale_posterior; (4) real ExpectationPropagation states "
         "(msprime, 2-7 samples, EP iterations 1-5, phased/unphased singletons) x rescale_intervals x "
         "rescale_iterations x rescale_segsites x max_shape through ExpectationPropagation.rescale with every kernel "
-        "call recorded; 30% with the options passed as np.int32/np.int64/np.bool_/np.float64, 30% with rescale() called a "
+        "call recorded (stream 5: the same clauses -- shape cap at the CALLER's max_shape in {2,5,20,50,200}, fixed nodes, order of "
+        "means across the re-projection -- on what tsdate.date / variational_gamma(return_fit=True) / "
+        "ExpectationPropagation.infer leave behind, with rescaling_intervals {1,3,1000} x rescaling_iterations {1,5} x "
+        "match_segregating_sites, options numpy-typed in 30%); stream 4: 30% with the options passed as np.int32/np.int64/np.bool_/np.float64, 30% with rescale() called a "
         "second time on the same object (each call checked against its own state before). About 45% of all tree "
         "sequences (streams 1 and 4) carry vlib.gen.exotic decorations: extra node flag bits, all nodes renumbered at "
         "random, mutations above local roots, mutation-free sites, unknown mutation times, arbitrary allele states, "
@@ -453,12 +456,136 @@ def ep_block(ctx, model_ok, n):
         oracle_ep(ctx, desc, run)
 
 
+# ------------------------------------------------------------------ stream 5: entry through the public API / infer()
+def api_case(rng):
+    from vlib import gen
+    for _ in range(50):
+        ts = gen.sim_ts(rng, n=rng.randint(3, 7), historical=False, L=rng.choice([100, 1000]))
+        if 3 <= ts.num_mutations <= 1500:
+            break
+    ts, kinds = K.maybe_exotic(rng, ts, kinds=("extra_flags", "permute_nodes", "monomorphic_sites", "states", "populations",
+                                               "unknown_mutation_times"))
+    opts = {"entry": rng.choice(["variational_gamma", "date", "infer"]), "mu": rng.choice([0.3, 1.0, 3.0]) / ts.sequence_length,
+            "max_shape": rng.choice([2, 5, 20, 50, 200]), "rescaling_intervals": rng.choice([1, 3, 1000]),
+            "rescaling_iterations": rng.choice([1, 5]), "match_segregating_sites": rng.random() < 0.5,
+            "max_iterations": rng.choice([1, 2, 5]), "numpy_typed": rng.random() < 0.3, "exotic": kinds}
+    return ts, opts
+
+
+def run_api(ts, o):
+    """date through a public entry point with rescaling on; the kernels rescale() calls are recorded
+    -> (status, fit object or None, recorded calls)"""
+    import warnings
+    import tsdate
+    import tsdate.variational as V
+    ms, ri, it, seg = o["max_shape"], o["rescaling_intervals"], o["rescaling_iterations"], o["match_segregating_sites"]
+    if o["numpy_typed"]:
+        ms, ri, it, seg = np.float64(ms), np.int64(ri), np.int32(it), np.bool_(seg)
+    fit = None
+    with K.Recorder() as rec:
+        try:
+            with warnings.catch_warnings():
+                warnings.simplefilter("ignore")
+                if o["entry"] == "infer":
+                    fit = V.ExpectationPropagation(ts, mutation_rate=o["mu"], singletons_phased=True)
+                    fit.infer(ep_iterations=o["max_iterations"], max_shape=ms, rescale_intervals=ri, rescale_iterations=it,
+                              regularise=True, rescale_segsites=seg)
+                else:
+                    kw = dict(mutation_rate=o["mu"], max_shape=ms, rescaling_intervals=ri, rescaling_iterations=it,
+                              match_segregating_sites=seg, max_iterations=o["max_iterations"], return_fit=True)
+                    if o["entry"] == "date":
+                        _out, fit = tsdate.date(ts, method="variational_gamma", **kw)
+                    else:
+                        _out, fit = tsdate.variational_gamma(ts, **kw)
+            st = "ok"
+        except AssertionError as e:
+            st = "assert:" + str(e)[:60]
+        except Exception as e:  # noqa
+            st = "raise:%s:%s" % (type(e).__name__, str(e)[:80])
+    return st, fit, rec.calls
+
+
+def oracle_api(ctx, desc, st, fit, calls):
+    """the clauses of the property on what the public entry point leaves behind: shape cap at the
+    CALLER's max_shape, fixed nodes untouched, order of posterior means across the rescaling step"""
+    import tskit
+    o = desc["opts"]
+    rp = {"input": desc, "status": st}
+    pcalls = [c for c in calls if c[0] == "piecewise_scale_posterior" and not isinstance(c[2], Exception)]
+    if st != "ok":
+        if K.K2_MSG in st or "Zero edge span" in st:
+            ctx.tally("api/rejected-by-own-assertion")
+        else:
+            ctx.tally("api/other-error:" + st.split(":")[1])        # dating failures outside the rescaling step: C35
+        return
+    if fit is None or not pcalls:
+        ctx.oracle_fail("api-no-rescale", "rescaling was requested but no rescaling step ran", rp)
+        return
+    cap = float(o["max_shape"]) * (1 + 1e-9)
+    post = np.array(fit.node_posterior, dtype=float)
+    fixed = np.array(fit.node_constraints[:, 0] == fit.node_constraints[:, 1])
+    for i in range(post.shape[0]):
+        if fixed[i]:
+            continue
+        a, b = post[i]
+        if not (a > -1 and b > 0 and a + 1 <= cap):
+            ctx.oracle_fail("api-shape-cap:node", "a node posterior left by %s has shape above the caller's max_shape (or is improper)" % o["entry"],
+                            dict(rp, node=i, shape=float(a + 1), rate=float(b), max_shape=o["max_shape"]))
+            return
+    mpost = np.array(fit.mutation_posterior, dtype=float)
+    for i in range(mpost.shape[0]):
+        a, b = mpost[i]
+        if math.isnan(a):
+            continue
+        if not (a > -1 and b > 0 and a + 1 <= cap):
+            ctx.oracle_fail("api-shape-cap:mutation", "a mutation posterior has shape above the caller's max_shape (or is improper)",
+                            dict(rp, mutation=i, shape=float(a + 1), rate=float(b), max_shape=o["max_shape"]))
+            return
+    # fixed nodes keep their (sample) time
+    m1 = fit.node_moments()[0]
+    for u in range(len(fixed)):
+        if fixed[u] and float(m1[u]) != float(fit.node_constraints[u, 0]):
+            ctx.oracle_fail("api-fixed-moved", "a fixed node's time changed", dict(rp, node=u))
+            return
+    # order of posterior means across every rescaling re-projection (nodes, then mutations)
+    for _nm, args, res in pcalls:
+        before, fx = np.array(args[0], dtype=float), np.array(args[1], dtype=bool)
+        after = np.array(res, dtype=float)
+        pairs = [((before[i, 0] + 1) / before[i, 1], (after[i, 0] + 1) / after[i, 1]) for i in range(len(fx)) if not fx[i]]
+        pairs.sort()
+        top = max([p[1] for p in pairs] + [0.0])
+        for (x0, y0), (x1, y1) in zip(pairs[:-1], pairs[1:]):
+            if y1 < y0 * (1 - ORACLE_REL) - 1e-12 * top:
+                ctx.oracle_fail("api-order", "order of two posterior means reversed by the rescaling step",
+                                dict(rp, before=[x0, x1], after=[y0, y1]))
+                return
+        for i in range(len(fx)):
+            if not fx[i] and not (after[i, 0] + 1 <= cap):
+                ctx.oracle_fail("api-shape-cap:reprojection", "the rescaling re-projection returned a shape above the caller's max_shape",
+                                dict(rp, row=i, shape=float(after[i, 0] + 1), max_shape=o["max_shape"]))
+                return
+
+
+def api_block(ctx, n):
+    from vlib import gen
+    for _ in range(n):
+        ts, o = api_case(ctx.rng)
+        desc = {"tables": gen.ts_tables_dict(ts), "opts": o}
+        st, fit, calls = run_api(ts, o)
+        free = 0 if fit is None else int(np.sum(fit.node_constraints[:, 0] != fit.node_constraints[:, 1]))
+        ctx.case({"stream": "api", "ts": gen.ts_summary(ts), "opts": o, "status": st,
+                  "max_node_shape": None if fit is None or st != "ok" else float(np.nanmax(np.array(fit.node_posterior)[:, 0]) + 1)},
+                 nontrivial=st == "ok" and free >= 1, kind="api/%s/%s" % (o["entry"], "ok" if st == "ok" else "rejected"))
+        oracle_api(ctx, desc, st, fit, calls)
+
+
 # ------------------------------------------------------------------ driver entry points
 def run(ctx, model_ok=True):
     kernel_block(ctx, model_ok, ctx.n(90, 600))
     point_block(ctx, model_ok, ctx.n(150, 1000))
     posterior_block(ctx, model_ok, ctx.n(60, 400))
     ep_block(ctx, model_ok, ctx.n(32, 300))
+    api_block(ctx, ctx.n(30, 250))
 
 
 def search(ctx):
@@ -468,6 +595,7 @@ def search(ctx):
         point_block(ctx, False, 300)
         posterior_block(ctx, False, 100)
         ep_block(ctx, False, 60)
+        api_block(ctx, 60)
         if ctx.oracle_fails:
             return
 
@@ -476,7 +604,11 @@ def replay(ctx, data):
     from vlib import gen
     case = data.get("case") or {}
     before = len(ctx.oracle_fails)
-    if "input" in case:                                   # an ExpectationPropagation.rescale run
+    if "input" in case and "entry" in case["input"].get("opts", {}):       # a public-API run
+        ts = gen.ts_from_dict(case["input"]["tables"])
+        st, fit, calls = run_api(ts, case["input"]["opts"])
+        oracle_api(ctx, case["input"], st, fit, calls)
+    elif "input" in case:                                 # an ExpectationPropagation.rescale run
         ts = gen.ts_from_dict(case["input"]["tables"])
         for run in run_ep(ts, case["input"]["opts"]):
             oracle_ep(ctx, case["input"], run)
